@@ -146,8 +146,8 @@ def wfB (t : CodeTable) (st : St) : Bool := shapeB st && st.seqs.all (constOK t)
 open Pepper.Sys in
 /-- every component of an instance tree is well-formed (to the depth the fuel reaches) -/
 def wfInst (t : CodeTable) : Nat → Inst → Bool
-  | 0, _ => true
-  | _ + 1, .comp s => wfB t s
+  | _, .comp s => wfB t s
+  | 0, .sys _ => true
   | fuel + 1, .sys st => st.components.all (fun p => wfInst t fuel p.2)
 
 end Pepper.FixSpec
